@@ -101,8 +101,24 @@ impl Prop for C13T {
         st.bump("obligation:nostd_allocator_less_link_attempted");
         if !out.status.success() {
             let err = String::from_utf8_lossy(&out.stderr);
-            let tail: Vec<&str> = err.lines().filter(|l| !l.trim().is_empty()).collect();
-            let tail = tail[tail.len().saturating_sub(25)..].join("\n    ");
+            // the compiler / linker errors (warnings left out)
+            let lines: Vec<&str> = err.lines().collect();
+            let mut keep: Vec<&str> = Vec::new();
+            let mut take = 0;
+            for l in &lines {
+                if l.starts_with("error") {
+                    take = 8;
+                }
+                if take > 0 && !l.trim().is_empty() {
+                    keep.push(l);
+                    take -= 1;
+                }
+            }
+            if keep.is_empty() {
+                keep = lines[lines.len().saturating_sub(20)..].to_vec();
+            }
+            keep.truncate(40);
+            let tail = keep.join("\n    ");
             return Err(("nostd-link-failed".into(), format!("a #![no_std] binary without a global allocator does not build/link against microscpi (default features):\n    {tail}")));
         }
         let bin = format!("{dir}/target/x86_64-unknown-linux-gnu/release/nostd-link");
